@@ -4,8 +4,6 @@ mod refnum;
 mod refrans;
 #[path = "../genc.rs"]
 mod genc;
-#[path = "../triggers.rs"]
-mod triggers;
 use noodles_cram::verif::codecs;
 use std::collections::BTreeMap;
 
@@ -31,7 +29,7 @@ fn scan() {
             let enc = match guard::catch(|| codecs::rans_4x8::encode(order, &data)) { Ok(Ok(e)) => e, Ok(Err(_)) => continue, Err(_) => { add(format!("r4x8 o{o} ENCODE PANIC"), &data, String::new()); continue } };
             let s = outcome(guard::catch(|| codecs::rans_4x8::decode(&enc)), &data);
             let x = match refrans::decode_4x8(&enc) { Ok(d) => if d == data { "ok".to_string() } else { "MISMATCH".into() }, Err(e) => e };
-            let t = triggers::label(&triggers::r4x8(o == 1, &data));
+            let t = match refrans::decode_4x8_dialect(&enc) { Ok((d, n)) if d == data => n.join("+"), _ => "DIALECT-FAILS".into() };
             add(format!("r4x8 o{o} trig={t} self={s} xdec={x}"), &data, format!("{class}"));
         }
         for k in 0..128u32 {
@@ -39,8 +37,8 @@ fn scan() {
             for (i, b) in [0x01u8, 0x04, 0x08, 0x10, 0x20, 0x40, 0x80].iter().enumerate() { if k >> i & 1 == 1 { f |= b; } }
             let enc = match guard::catch(|| codecs::rans_nx16::encode(codecs::rans_nx16::Flags::from(f), &data)) { Ok(Ok(e)) => e, Ok(Err(_)) => continue, Err(_) => { add(format!("nx16 ENCODE PANIC"), &data, String::new()); continue } };
             let s = outcome(guard::catch(|| codecs::rans_nx16::decode(&enc, data.len())), &data);
-            let x = match refrans::decode_nx16(&enc, data.len()) { Ok(d) => if d == data { "ok".to_string() } else { "MISMATCH".into() }, Err(e) => e };
-            let t = triggers::label(&triggers::nx16(&enc, &data));
+            let x = match refrans::decode_nx16(&enc, Some(data.len())) { Ok(d) => if d == data { "ok".to_string() } else { "MISMATCH".into() }, Err(e) => e };
+            let t = match refrans::decode_nx16_dialect(&enc, Some(data.len())) { Ok((d, n)) if d == data => n.join("+"), _ => "DIALECT-FAILS".into() };
             let eff = enc[0] & !0x10;
             let stage = format!("{}{}{}{}{}{}", if eff&1!=0 {"O1"} else {"O0"}, if eff&4!=0 {"|N32"} else {""}, if eff&8!=0 {"|STRIPE"} else {""}, if eff&0x20!=0 {"|CAT"} else {""}, if eff&0x40!=0 {"|RLE"} else {""}, if eff&0x80!=0 {"|PACK"} else {""});
             add(format!("nx16 trig={t} self={s} xdec={x} eff={stage}"), &data, format!("{class} req={f:#x}"));
@@ -75,6 +73,6 @@ fn main() {
         _ => panic!(),
     });
     match &dec { Ok(Ok(d)) => println!("noodles decode: {} {}", if *d == data {"OK"} else {"MISMATCH"}, hex(d)), other => println!("noodles decode: {other:?}") }
-    let x = match codec { "r4x8" => Some(refrans::decode_4x8(&enc)), "nx16" => Some(refrans::decode_nx16(&enc, data.len())), _ => None };
+    let x = match codec { "r4x8" => Some(refrans::decode_4x8(&enc)), "nx16" => Some(refrans::decode_nx16(&enc, Some(data.len()))), _ => None };
     if let Some(x) = x { match &x { Ok(d) => println!("ref decode: {} {}", if *d == data {"OK"} else {"MISMATCH"}, hex(d)), Err(e) => println!("ref decode: Err({e})") } }
 }
